@@ -4,7 +4,7 @@ use crate::core::{DynScenario, Tier};
 use crate::scen;
 
 pub fn all_scenarios() -> Vec<Box<dyn DynScenario>> {
-    vec![Box::new(scen::c16::C16), Box::new(scen::c14::C14), Box::new(scen::c02::C02), Box::new(scen::c03::C03)]
+    vec![Box::new(scen::c16::C16), Box::new(scen::c14::C14), Box::new(scen::c02::C02), Box::new(scen::c03::C03), Box::new(scen::c05::C05), Box::new(scen::c06::C06)]
 }
 
 pub fn find_scenario(name: &str) -> Option<Box<dyn DynScenario>> {
@@ -79,6 +79,24 @@ pub fn property(id: &str) -> Option<PropSpec> {
             assumptions: vec!["order/repetition independence is demanded of register/coupon state and lg_k only, never of the estimate (HIP is history-dependent by design)", "foreign images use the updatable layout without aux exceptions (variants are C13's)"],
             components_real: vec!["HllUnion::update / update_value / reset / to_sketch / estimate / bounds / lg_config_k", "HllSketch::serialize + deserialize on every wire delivery"],
             components_stub: vec!["at-least-once network (harness)", "ForeignWriter (independent HLL encoder)", "contribution-set model (oracle)"],
+        },
+        "C05" => PropSpec {
+            id: "C05",
+            level: "exploration",
+            parts: vec![p("c05_cpc_replicas", REL, BOTH)],
+            rule: "one run = one lg_k and one (row,col) stream (1-3 phases from 7 generators: hash-like uniform/geometric, column-major fills that walk Empty->Sparse->Hybrid->Pinned->Sliding and move the window up to offset 56 at small lg_k while leaving early-zone holes that are set later, right-shifted geometric columns, full rows, bursts on the 3K/32, K/2, 27K/8 thresholds, exact repeats; or hashed items) delivered to two replicas on a shared ordered channel (with duplicates) and three replicas on their own at-least-once channels (reorder, duplicate, loss). After every delivery num_coupons == model popcount; at every flavor / window-offset change, at Check points and at quiescence: reconstructed bit matrix == model matrix, validate(), window offset and window allocation equal to the documented functions of C (wide integers), first_interesting_column sound (no zero below it), identical sequence => bit-identical estimate; replicas converge at quiescence. Non-trivial = a group-B delivery happened; distinct = distinct (fault kinds, probes, sequence of (flavor, offset) transitions, lg_k).",
+            assumptions: vec!["row/col derivation from an item is checked by C16 and reused for hashed items", "the image view of the state is checked by C12 (CPC decoder), not here"],
+            components_real: vec!["CpcSketch::update / row_col_update (sparse, windowed, move_window, PairTable insert/delete/rebuild)", "num_coupons, validate, estimate, bounds"],
+            components_stub: vec!["ordered and at-least-once channels", "bit-matrix model (oracle)"],
+        },
+        "C06" => PropSpec {
+            id: "C06",
+            level: "exploration",
+            parts: vec![p("c06_cpc_union", REL, BOTH)],
+            rule: "one run = 1-6 workers (lg_k 4..=12, steered into every flavor), 2-3 aggregators with CpcUnion(lg_k) plus a root, a script of worker updates, flushes (in memory / serialize() on the wire), at-least-once delivery with reorder / duplicate / loss, to_sketch()->root (in memory or over the wire). After every delivery and at Check points / quiescence: union lg_k == min over union and non-empty inputs, num_coupons == popcount of the OR of the folded input matrices, to_sketch() result matrix == that OR, validate(), offset / window / first_interesting_column consistent, marked merged, image without HIP section. Non-trivial = a wire delivery happened; distinct = distinct (fault kinds, sequence of (input flavor, form), final lg_k).",
+            assumptions: vec!["wire deliveries go through the real serialize/deserialize, whose own losslessness is C11's subject"],
+            components_real: vec!["CpcUnion::update (cases A-D, reduce_k) / to_sketch / num_coupons / lg_k", "CpcSketch::serialize + deserialize on wire deliveries"],
+            components_stub: vec!["at-least-once network", "OR-of-folded-matrices model (oracle)"],
         },
         _ => return None,
     })
